@@ -891,6 +891,87 @@ func runC20(c *Ctx) error {
 		for _, it := range c20ExampleItems(types) {
 			add("documented-default", "docdefault;"+it)
 		}
+		// CROSS-KEY: the effective value of a key must not depend on the value of ANOTHER key.  For every value of
+		// the mode-like keys (logging.level over all zerolog levels, logging.format, every bool key both ways,
+		// db.engine, p2p.chain_net_type), set from the environment and from the file, the ALL-KEYS matrix: every
+		// other key from the environment, every other key from the file, every other key at its default - the
+		// observable holds every key's effective value.  Plus key x mode pairs: every string/enum key (tokens,
+		// passwords, paths, names) under every log level (quick), every key under every mode (thorough).
+		{
+			val := func(k c20Key, i int) string { // simple non-default values of the key's type
+				switch k.Type {
+				case "bool":
+					if (k.Default == "true") == (i%2 == 0) {
+						return "false"
+					}
+					return "true"
+				case "int":
+					return []string{"7", "4321"}[i%2]
+				case "uint16":
+					return []string{"6543", "1"}[i%2]
+				case "duration":
+					return []string{"1m30s", "36h0m0s"}[i%2]
+				case "enum":
+					p := c20Pool(k, false)
+					return p[i%2]
+				}
+				if k.Key == "logging.level" {
+					return []string{"info", "warn"}[i%2]
+				}
+				return []string{"verif-A", "s3cret-B"}[i%2]
+			}
+			type mode struct{ key, val string }
+			var modes []mode
+			for _, k := range keys {
+				switch {
+				case k.Key == "logging.level":
+					for _, v := range []string{"trace", "debug", "info", "warn", "error", "fatal", "panic", "disabled", "TRACE", "-1", "0", "7"} {
+						modes = append(modes, mode{k.Key, v})
+					}
+				case k.Key == "logging.format":
+					modes = append(modes, mode{k.Key, "console"}, mode{k.Key, "json"}, mode{k.Key, "text"})
+				case k.Type == "bool":
+					modes = append(modes, mode{k.Key, "true"}, mode{k.Key, "false"})
+				case k.Type == "enum":
+					for _, v := range c20Pool(k, false) {
+						modes = append(modes, mode{k.Key, v})
+					}
+				}
+			}
+			c.Meta("cross_key_modes", strconv.Itoa(len(modes)))
+			for mi, m := range modes {
+				for si, src := range []string{"E", "F"} {
+					mitem := "F:" + m.key + "=" + m.val
+					if src == "E" {
+						mitem = "E:" + c20EnvName(m.key) + "=" + m.val
+					}
+					var allE, allF []string
+					for _, k := range keys {
+						if k.Key == m.key {
+							continue
+						}
+						allE = append(allE, "E:"+c20EnvName(k.Key)+"="+val(k, mi+si))
+						allF = append(allF, "F:"+k.Key+"="+val(k, mi+si+1))
+					}
+					add("cross-key:all-default", "load;"+mitem)
+					add("cross-key:all-env", "load;"+mitem+";"+strings.Join(allE, ";"))
+					add("cross-key:all-file", "load;"+mitem+";"+strings.Join(allF, ";"))
+					if th {
+						add("cross-key:all-env+file", "load;"+mitem+";"+strings.Join(allE, ";")+";"+strings.Join(allF, ";"))
+					}
+					for ki, k := range keys {
+						if k.Key == m.key {
+							continue
+						}
+						secretLike := k.Type == "string" || k.Type == "enum"
+						if th || (m.key == "logging.level" && secretLike && (ki+mi+si)%2 == 0) {
+							add("cross-key:pair-env", "load;"+mitem+";E:"+c20EnvName(k.Key)+"="+val(k, ki))
+							add("cross-key:pair-file", "load;"+mitem+";F:"+k.Key+"="+val(k, ki+1))
+						}
+					}
+				}
+			}
+		}
 		// several keys at once from random sources
 		for i, n := 0, c.Pick(24, 600); i < n; i++ {
 			m := 2 + c.Rng.Intn(6)
